@@ -327,9 +327,12 @@ def who(ctx):
         for op in atomic_ops(f):
             fld = atomic_field_of(f, op)
             if fld == (RCU, "m_zombie_head") and op["op"] != "load":
-                ok = op["op"] == "cas" and f.name in ("rcu_read_lock", "erase")
-                ctx.ob(rid, ok, f.loc(op["st"]), "m_zombie_head changes only through the CAS pushes of rcu_read_lock and erase",
-                       "" if ok else "%s in %s" % (op["name"], f.name), fn=f.label, inst=f.qname)
+                # the log grows by CAS pushes only: a handle registering itself, or a writer (m_write_mutex held) retiring nodes
+                pos_ = f.pos_of(op["st"])
+                writer = f.rec == RCU and pos_ is not None and ctx.eng.locks(f).holds(pos_, "this.m_write_mutex", "X")
+                ok = op["op"] == "cas" and (f.name in ("rcu_read_lock", "erase") or writer)
+                ctx.ob(rid, ok, f.loc(op["st"]), "m_zombie_head changes only through CAS pushes (a registering handle, or a writer "
+                       "holding m_write_mutex)", "" if ok else "%s in %s" % (op["name"], f.name), fn=f.label, inst=f.qname)
             if fld == (ZLN, "owner") and op["op"] != "load":
                 ok = f.name == "unlock" and f.rec == GUARD and op["op"] == "store"
                 ctx.ob(rid, ok, f.loc(op["st"]), "owner is cleared only by rcu_guard::unlock", "" if ok else
@@ -372,6 +375,9 @@ def who(ctx):
             if st["k"] == "CallExpr" and re.match(r"^std::allocator_traits<.*>::(destroy|deallocate)$", callee_fq(st)):
                 ok = (f.name == "unlock" and f.rec == GUARD) or (f.kind == "dtor" and f.rec == RCU) or \
                     f.name in ("allocate_unique",) or f.rec == "gmlc::libguarded::detail::deallocator"
+                if not ok and len(st["args"]) > 1 and "zombie_list_node" in (f.s(st["args"][1]) or {}).get("t", "") and \
+                        any(a_["k"] == "CXXCatchStmt" for a_ in f.ancestors(st)):
+                    ok = True       # roll-back of reclamation records that were allocated but never pushed onto the log
                 ctx.ob(rid, ok, f.loc(st), "list memory is freed only by unlock, ~rcu_list, deallocator and allocate_unique",
                        "" if ok else "freed in %s" % f.name, fn=f.label, inst=f.qname)
 
